@@ -20,5 +20,7 @@ def run(F, rep):
     rep.run(lemmas.lmer_lemmas, F, rep, which={"rc"})
     rep.run(dt_seq.slice_view_tables, F, rep, "C12.4")
     rep.run(lemmas.dnastring_lemmas, F, rep, which={"rc"})
+    # "commutes with k-mer extraction": both sides of the equation read k-mers out of the packed store / its views, for every k-mer type
+    rep.run(common.run_store_kmer_lemmas, F, rep, "C12.7")
     # conversions of reverse-complemented views: slice.rc().to_owned() / bytes / renderings equal the substring's reverse complement
     rep.run(lemmas.slice_exact_lemmas, F, rep, "C12.6", quick=True)
